@@ -232,7 +232,10 @@ func RunSched(bodies []func() string, choices []int, snap func() string) *SchedR
 				en[0] = t
 			}
 		}
-		g := snap()
+		// the rendered global state can be kilobytes (lazily built tables): the keys carry its 64-bit hash
+		gh := fnv.New64a()
+		gh.Write([]byte(snap()))
+		g := gh.Sum64()
 		key := fmt.Sprint(count, rh, g, owner, inDo)
 		ci := 0
 		if len(res.Trace) < len(choices) {
